@@ -56,6 +56,7 @@ fn main() {
         "C14" => main_for::<props::c14::C14>(rest),
         "C15" => main_for::<props::c15::C15>(rest),
         "C16" => main_for::<props::c16::C16>(rest),
+        "C17" => main_for::<props::c17::C17>(rest),
         "C18" => {
             props::c18::self_check();
             main_for::<props::c18::C18>(rest)
